@@ -336,6 +336,11 @@ static unsigned char *g_respbuf; static uint32_t g_respbufsize;
 static long g_cmd_id;
 static int g_trace_cmds = 1;
 static long g_n_cmds, g_n_ok;
+static EVP_MD_CTX *g_resp_md;       /* when set, every response is fed into this digest (twin-run oracle) */
+static long g_resp_count;
+static FILE *g_resp_dump;
+#define RESP_LOG_MAX 400
+static uint32_t g_resp_log[RESP_LOG_MAX][3];   /* per response in a hashed run: command code, rc, crc of the bytes */
 
 static Rsp run_raw(const uint8_t *cmd, uint32_t n) {
     Rsp r; memset(&r, 0, sizeof r);
@@ -350,6 +355,17 @@ static Rsp run_raw(const uint8_t *cmd, uint32_t n) {
     else r.rc = 0xFFFFFFFF;
     g_n_cmds++; if (r.rc == 0) g_n_ok++;
     g_cmd_id++;
+    if (g_resp_md) {
+        uint32_t ccx = n >= 10 ? g32(cmd + 6) : 0;
+        /* responses that legitimately contain host-side randomness (ECDSA nonces from OpenSSL) or raw structure padding
+           (ContextSave copies the SESSION structure bytewise): only rc and length are compared */
+        int opaque = r.rc == 0 && (ccx == CC_Sign || ccx == CC_ContextSave || ccx == CC_Quote || ccx == CC_NV_Certify || ccx == CC_ECDH_KeyGen);
+        EVP_DigestUpdate(g_resp_md, &r.ret, sizeof r.ret); EVP_DigestUpdate(g_resp_md, &len, 4); EVP_DigestUpdate(g_resp_md, g_respbuf, opaque ? 10 : len);
+        if (g_resp_count < RESP_LOG_MAX) { uint32_t c = 2166136261u; for (uint32_t i = 0; i < (opaque ? 10 : len); i++) c = (c ^ g_respbuf[i]) * 16777619u;
+            g_resp_log[g_resp_count][0] = n >= 10 ? g32(cmd + 6) : 0; g_resp_log[g_resp_count][1] = r.rc; g_resp_log[g_resp_count][2] = c; }
+        if (g_resp_dump) { fprintf(g_resp_dump, "%ld cc=%x rc=%x ", g_resp_count, n >= 10 ? g32(cmd + 6) : 0, r.rc); for (uint32_t i = 0; i < len; i++) fprintf(g_resp_dump, "%02x", g_respbuf[i]); fputc('\n', g_resp_dump); }
+        g_resp_count++;
+    }
     return r;
 }
 static Rsp run(Buf *b) { b_put32(b, 2, (uint32_t)b->n); return run_raw(b->p, (uint32_t)b->n); }
